@@ -85,6 +85,39 @@ func (c *Cluster) quorumAlive() []*Raft {
 	return live
 }
 
+// canReachMajority reports whether r and the voters it is connected to (both ways) form a majority.
+// A Raft leader that cannot reach a majority commits nothing and loses its lease.
+func (c *Cluster) canReachMajority(r *Raft) bool {
+	voters, reach := 0, 0
+	for _, s := range c.Servers {
+		if s.Suffrage != Voter && s.Suffrage != Staging {
+			continue
+		}
+		voters++
+		n := c.nodes[s.ID]
+		if n == nil || n.dead || n.shutdown || c.Sim.Crashed(n.simNode) {
+			continue
+		}
+		if n == r || c.Connected == nil || (c.Connected(r.simNode, n.simNode) && c.Connected(n.simNode, r.simNode)) {
+			reach++
+		}
+	}
+	return voters > 0 && reach*2 > voters
+}
+
+// Reevaluate is called after the network changed: a leader cut off from the majority steps down
+// (lease expiry) and the connected majority elects a new one.
+func (c *Cluster) Reevaluate() {
+	if c.Leader != "" {
+		if l := c.nodes[c.Leader]; l == nil || l.dead || !c.canReachMajority(l) {
+			c.Sim.Count("fault.controller_lost_majority")
+			c.SetLeader("")
+			return
+		}
+	}
+	c.maybeElect()
+}
+
 // maybeElect schedules an election when the group has no leader.
 func (c *Cluster) maybeElect() {
 	if !c.AutoElect || c.electing || c.Leader != "" {
@@ -104,7 +137,16 @@ func (c *Cluster) maybeElect() {
 		if live == nil {
 			return
 		}
-		c.SetLeader(live[c.Sim.Choose(len(live), "new-leader")].id)
+		var cands []*Raft
+		for _, n := range live {
+			if c.canReachMajority(n) {
+				cands = append(cands, n)
+			}
+		}
+		if len(cands) == 0 {
+			return
+		}
+		c.SetLeader(cands[c.Sim.Choose(len(cands), "new-leader")].id)
 	}})
 }
 
@@ -169,6 +211,7 @@ type Raft struct {
 	snapReq     bool
 	snapBusy    bool
 	floor       uint64 // highest index an earlier incarnation of this member had applied
+	toldLeader  bool   // the last leadership notification handed to the server
 	applierDone bool
 	trailing    uint64
 	Snapshots   int
@@ -240,9 +283,14 @@ func (r *Raft) notifyLoop() {
 		}
 		v := r.notifyQ[0]
 		r.notifyQ = r.notifyQ[1:]
+		if v {
+			r.toldLeader = true
+		}
 		if r.conf.NotifyCh != nil {
 			simrt.SendY(r.conf.NotifyCh, v)
 		}
+		// (toldLeader is not reset: the notification channel is buffered, so the server may still be
+		// acting on an earlier "you lead" when a later "you do not" has been queued)
 	}
 }
 
@@ -484,7 +532,11 @@ func (r *Raft) Apply(cmd []byte, timeout time.Duration) ApplyFuture {
 		return errFuture{ErrRaftShutdown}
 	}
 	if r.c.Leader != r.id {
-		return errFuture{ErrNotLeader}
+		return errFuture{r.notLeaderErr()}
+	}
+	if !r.c.canReachMajority(r) {
+		r.c.Reevaluate()
+		return errFuture{ErrLeadershipLost}
 	}
 	e := &Log{Index: r.c.CommitIndex() + 1, Term: r.c.Term, Type: LogCommand, Data: append([]byte(nil), cmd...), AppendedAt: time.Now()}
 	r.c.Log = append(r.c.Log, e)
@@ -500,6 +552,18 @@ func (r *Raft) Apply(cmd []byte, timeout time.Duration) ApplyFuture {
 	return &applyFuture{r: r, idx: e.Index, deadline: deadlineOf(timeout)}
 }
 
+// notLeaderErr is what a call that needs leadership returns on a member that does not lead. A member
+// that was told it leads and has lost leadership since (and has not been told yet) gets
+// ErrLeadershipLost, as from hashicorp/raft's leader loop winding down. (liftbridge's leadership loop
+// panics when it gets ErrNotLeader in that window and its LeadershipTransfer then fails as well; that
+// is outside the properties checked here and is noted in DESIGN.md as an observation.)
+func (r *Raft) notLeaderErr() error {
+	if r.toldLeader {
+		return ErrLeadershipLost
+	}
+	return ErrNotLeader
+}
+
 // Barrier completes when the FSM has applied everything committed so far.
 func (r *Raft) Barrier(timeout time.Duration) Future {
 	simrt.Yield("raft-barrier")
@@ -507,7 +571,7 @@ func (r *Raft) Barrier(timeout time.Duration) Future {
 		return errFuture{ErrRaftShutdown}
 	}
 	if r.c.Leader != r.id {
-		return errFuture{ErrNotLeader}
+		return errFuture{r.notLeaderErr()}
 	}
 	return &applyFuture{r: r, idx: r.c.CommitIndex(), deadline: deadlineOf(timeout)}
 }
